@@ -84,6 +84,28 @@ Proof. exact infer_sound_Equal. Qed.
         the shape rule data[..axis] ++ indices ++ data[axis+1..] ---- *)
 Theorem C10_infer_sound_Gather : forall v axis, sound_for v (OGather axis) no_extra.
 Proof. exact infer_sound_Gather. Qed.
+(* ---- pooling (MaxPool / AveragePool, fn output_size of ops/conv_pool.rs):
+        (1) the inferred size counts window positions (floor and ceil mode, incl. the ceil-mode cap);
+        (2) the expression tree built by output_size evaluates to that number (no i32 overflow for
+            sizes and attributes <= 2^20);
+        (3) operator level, NCHW input with explicit pads, against the (repaired) execution's
+            own arithmetic: sizes and ranks claimed by inference are the executed ones ---- *)
+Theorem C10_pool_out_counts_windows : forall n k s d ps pe,
+  0 < s -> 0 <= n + ps + pe - d * (k - 1) - 1 -> 1 <= n + ps ->
+  let w := n + ps + pe - d * (k - 1) - 1 in
+  forall j, 0 <= j ->
+    (j < pool_out_z n k s d ps pe false <-> j * s <= w) /\
+    (j < pool_out_z n k s d ps pe true <-> (j * s < w + s /\ j * s <= n + ps - 1)).
+Proof. exact pool_out_counts_windows. Qed.
+Theorem C10_out_size_expr_eval : forall s e n k st d ps pe ceil,
+  evalw s e = Ok n -> small n -> small k -> small st -> small d -> small ps -> small pe ->
+  1 <= st -> 1 <= k -> d * (k - 1) <= 1048576 ->
+  0 <= n + ps + pe - d * (k - 1) - 1 ->
+  evalw s (out_size_expr e k st d (Some (ps, pe)) ceil) = Ok (pool_out_z n k st d ps pe ceil).
+Proof. exact out_size_expr_eval. Qed.
+Theorem C10_infer_sound_Pool : forall v ks pads st ceil,
+  sound_for v (OPool ks (Some pads) st ceil) (pool_small ks pads st).
+Proof. exact infer_sound_Pool. Qed.
 Theorem C10_F5_equal_fold_refuted :
   exists s x y vx vy e r,
     expr_cons s x vx = true /\ expr_cons s y vy = true /\
